@@ -143,7 +143,7 @@ class _Subst(ast.NodeTransformer):
         return node
 
 
-def _bind(helper, call, receiver_is_self):
+def _bind(helper, call, receiver_is_self, caller_names=frozenset()):
     """(prelude statements, name mapping) for the call, or None."""
     params = list(helper.params)
     args = list(call.args)
@@ -187,12 +187,13 @@ def _bind(helper, call, receiver_is_self):
                 targets=[ast.Name(id=tmp, ctx=ast.Store())], value=e), call))
             mapping[p] = tmp
     for local in helper.stored:
-        if local not in mapping:
-            mapping[local] = local + suffix
+        if local not in mapping and local in caller_names:
+            mapping[local] = local + suffix      # keeps the helper's local apart from the caller's
     return prelude, mapping
 
 
 _EXPANDED = set()
+_CALLER_NAMES = [frozenset()]
 
 
 def _expand_stmt(st, helpers, scope_cls):
@@ -232,7 +233,7 @@ def _expand_stmt(st, helpers, scope_cls):
     helper = _resolve(call, helpers, scope_cls)
     if helper is None or not helper.ok:
         return None
-    bound = _bind(helper, call, True)
+    bound = _bind(helper, call, True, _CALLER_NAMES[0])
     if bound is None:
         return None
     prelude, mapping = bound
@@ -308,7 +309,7 @@ def _expand_exprs(node, helpers, scope_cls):
             h = _resolve(call, helpers, scope_cls)
             if h is None or not h.ok or h.expr is None:
                 return call
-            bound = _bind(h, call, True)
+            bound = _bind(h, call, True, _CALLER_NAMES[0])
             if bound is None:
                 return call
             prelude, mapping = bound
@@ -358,7 +359,13 @@ def inline_private_helpers(tree):
                         new.append(st)
                         continue
                     if isinstance(st, ast.FunctionDef):
+                        saved = _CALLER_NAMES[0]
+                        if not inside_helper:
+                            _CALLER_NAMES[0] = frozenset(
+                                {n.id for n in ast.walk(st) if isinstance(n, ast.Name)}
+                                | {a.arg for a in st.args.args + st.args.kwonlyargs})
                         walk_blocks(st, scope_cls, True)
+                        _CALLER_NAMES[0] = saved
                         new.append(st)
                         continue
                     rep = _expand_stmt(st, helpers, scope_cls) if inside_helper else None
